@@ -1,4 +1,5 @@
-import CashewsVerif.Lemmas.Key
+import CashewsVerif.Lemmas.KeyForms
+import CashewsVerif.Lemmas.KeyUtf8
 /-
 C08 — cache keys are canonical per bound arguments and separate different arguments.
 Property theorems only; helper lemmas live in `Lemmas/Key.lean`, the model in `Model/Key.lean`.
@@ -12,8 +13,9 @@ What the statements cover and what they exclude (and why):
 * separation is stated for templates whose consecutive fields are separated by a literal that
   contains ':' (without that no separation is possible: `unseparated_template_collides`), for field
   texts without ':' (with it: `colon_in_text_collides`), and — in the typed corollary — for values
-  of one type among str / int / bool / None.  `bytes` is excluded from the typed corollary because
-  the code's rendering of bytes is not injective (`bytes_rendering_collides`, known finding);
+  of one type among str / int / bool / None / bytes of equal UTF-8 validity (`Distinguishable`).
+  A valid-UTF-8 bytes value against an invalid one is excluded because the code's rendering of bytes
+  is not injective there (`bytes_rendering_collides`, `bytes_collisions_are_mixed`: known finding);
   tuples and dicts with more than one element always contain ':' and are outside the property's
   domain.  Non-emptiness of the texts, which the property's wording also grants, is not needed.
 -/
@@ -76,6 +78,50 @@ call raises -/
 example : cacheKey sigD15 tmplD15 {} ⟨[], [(['z'], .int 1)]⟩ = some "m:f:a::b::c:".toList ∧
     cacheKey sigD15 tmplD15 {} ⟨[.int 1], [(['z'], .int 1)]⟩ = none := by decide
 
+/-! ### part 1, call forms: the rewritings that connect the forms of one call keep the bound arguments -/
+
+/-- **A defaulted parameter may be left out.**  For every signature with distinct parameter names:
+dropping the keyword argument of a positional-or-keyword or keyword-only parameter whose value is
+that parameter's default does not change the key (any template, any key context, any other
+arguments). -/
+theorem key_same_when_default_omitted (sig : Sig) (hnd : (sig.map (·.name)).Nodup) (t : Tmpl) (ctx : Ctx)
+    (args : List PyVal) (kw : Dict) (p : Param) (hp : p ∈ sig) (hk : p.kind = .pos ∨ p.kind = .kwOnly)
+    (v : PyVal) (hdf : p.dflt = some v) (hkw : get? kw p.name = some v)
+    (hb : boundArgs sig ⟨args, kw⟩ ≠ none) :
+    cacheKey sig t ctx ⟨args, erase kw p.name⟩ = cacheKey sig t ctx ⟨args, kw⟩ := by
+  have e := boundArgs_omit_default sig hnd args kw p hp hk v hdf hkw hb
+  exact key_depends_only_on_bound sig t ctx _ _ e (e ▸ hb)
+
+/-- **Positional or by keyword.**  `f(x₁ … xₖ, a, **kw)` and `f(x₁ … xₖ, p=a, **kw)` — the last
+positional argument written as a keyword argument instead (inserted anywhere among the keyword
+arguments), `p` being the positional-or-keyword parameter it lands on — get the same key.  Applied
+repeatedly this connects the fully positional form of a call with its fully keyword form; together
+with `key_same_when_default_omitted` it covers the forms the property lists. -/
+theorem key_same_when_positional_written_as_keyword (pre post : List Param) (p : Param) (t : Tmpl) (ctx : Ctx)
+    (as : List PyVal) (a : PyVal) (kw kw' : Dict)
+    (hlen : pre.length = as.length) (hpre : ∀ q ∈ pre, q.kind = .pos) (hp : p.kind = .pos)
+    (hnd : ∀ q ∈ pre, q.name ≠ p.name)
+    (hk1 : get? kw' p.name = some a) (hk2 : erase kw' p.name = kw)
+    (hb : boundArgs (pre ++ p :: post) ⟨as ++ [a], kw⟩ ≠ none) :
+    cacheKey (pre ++ p :: post) t ctx ⟨as, kw'⟩ = cacheKey (pre ++ p :: post) t ctx ⟨as ++ [a], kw⟩ := by
+  have hb' : bind false (pre ++ p :: post) ⟨as ++ [a], kw⟩ ≠ none := by
+    intro h; simp [boundArgs, h] at hb
+  have e : boundArgs (pre ++ p :: post) ⟨as, kw'⟩ = boundArgs (pre ++ p :: post) ⟨as ++ [a], kw⟩ := by
+    unfold boundArgs
+    rw [bind_last_positional_as_keyword pre post p as a kw kw' hlen hpre hp hnd hk1 hk2 hb']
+  exact key_depends_only_on_bound _ t ctx _ _ e (e ▸ hb)
+
+/-- non-vacuity: `f(1, b=5)` → `f(1)` and `f(1)` → `f(a=1)` on the D15 signature satisfy the premises -/
+example : cacheKey sigD15 tmplD15 {} ⟨[.int 1], erase [(['b'], .int 5)] ['b']⟩ =
+    cacheKey sigD15 tmplD15 {} ⟨[.int 1], [(['b'], .int 5)]⟩ :=
+  key_same_when_default_omitted sigD15 (by decide) tmplD15 {} [.int 1] [(['b'], .int 5)]
+    { name := ['b'], kind := .pos, dflt := some (.int 5) } (by simp [sigD15]) (Or.inl rfl) (.int 5) rfl rfl
+    (by intro h; cases h)
+
+example : cacheKey sigD15 tmplD15 {} ⟨[], [(['a'], .int 1)]⟩ = cacheKey sigD15 tmplD15 {} ⟨[] ++ [.int 1], []⟩ :=
+  key_same_when_positional_written_as_keyword [] _ { name := ['a'], kind := .pos } tmplD15 {} [] (.int 1) []
+    [(['a'], .int 1)] rfl (by simp) rfl (by simp) rfl rfl (by intro h; cases h)
+
 /-! ### part 2: separation -/
 
 /-- **Separated templates are injective on ':'-free field texts.**  On a template whose consecutive
@@ -123,10 +169,50 @@ theorem undecodable_bytes_injective (xs ys : List Nat) (hx : ∀ b ∈ xs, b < 2
   simp only [typeFmt, decodeBytes, ux, uy] at h
   exact hexOf_injective xs ys hx hy h
 
+/-- **Which bytes values collide.**  Two different bytes values have the same text only if exactly
+one of them is valid UTF-8 (the other one is rendered as hex): among decodable values, and among
+undecodable ones, the rendering is injective.  This is the exact shape of the known finding. -/
+theorem bytes_collisions_are_mixed (xs ys : List Nat) (hx : ∀ b ∈ xs, b < 256) (hy : ∀ b ∈ ys, b < 256)
+    (hne : xs ≠ ys) (h : typeFmt (.bytes xs) = typeFmt (.bytes ys)) :
+    (utf8Decode xs).isSome ≠ (utf8Decode ys).isSome := by
+  cases ux : utf8Decode xs with
+  | none =>
+    cases uy : utf8Decode ys with
+    | none => exact absurd (undecodable_bytes_injective xs ys hx hy ux uy h) hne
+    | some _ => simp
+  | some s =>
+    cases uy : utf8Decode ys with
+    | none => simp
+    | some s' =>
+      simp only [typeFmt, decodeBytes, ux, uy] at h
+      subst h
+      exact absurd (utf8Decode_injective xs ys s ux uy) hne
+
+/-- "two different values of one type" for which the code keeps its promise: str, int, bool, None,
+and bytes values that are both valid UTF-8 or both not -/
+def Distinguishable (v₁ v₂ : PyVal) : Prop :=
+  v₁ ≠ v₂ ∧ v₁.type = v₂.type ∧
+    (v₁.type = .str ∨ v₁.type = .int ∨ v₁.type = .bool ∨ v₁.type = .none ∨
+      ∃ xs ys, v₁ = .bytes xs ∧ v₂ = .bytes ys ∧ (∀ b ∈ xs, b < 256) ∧ (∀ b ∈ ys, b < 256) ∧
+        (utf8Decode xs).isSome = (utf8Decode ys).isSome)
+
+/-- distinguishable values have different field texts -/
+theorem text_differs_of_distinguishable (v₁ v₂ : PyVal) (h : Distinguishable v₁ v₂) :
+    typeFmt v₁ ≠ typeFmt v₂ := by
+  obtain ⟨hne, hty, hc⟩ := h
+  intro e
+  rcases hc with h | h | h | h | ⟨xs, ys, rfl, rfl, hx, hy, hu⟩
+  · exact hne (text_injective_one_type v₁ v₂ hty (Or.inl h) e)
+  · exact hne (text_injective_one_type v₁ v₂ hty (Or.inr (Or.inl h)) e)
+  · exact hne (text_injective_one_type v₁ v₂ hty (Or.inr (Or.inr (Or.inl h))) e)
+  · exact hne (text_injective_one_type v₁ v₂ hty (Or.inr (Or.inr (Or.inr h))) e)
+  · exact bytes_collisions_are_mixed xs ys hx hy (fun h => hne (by rw [h])) e hu
+
 /-- **Call-level separation.**  Signature arbitrary, template separated, key context without the
 deprecated `rewrite`; two calls that bind; every field of the template is a bound value whose text
-has no ':'; a mentioned parameter `p` holds two different values of one type among str, int, bool,
-None.  Then the keys differ: a result cached for one argument tuple is not returned for the other. -/
+has no ':'; a mentioned parameter `p` holds two different values of one type — str, int, bool, None,
+or bytes of the same UTF-8 validity.  Then the keys differ: a result cached for one argument tuple is
+not returned for the other. -/
 theorem key_separates_calls (sig : Sig) (t : Tmpl) (hs : separated t = true) (ctx : Ctx)
     (hctx : ctx.rewrite = false) (c₁ c₂ : Call) (b₁ b₂ : Bound)
     (hb₁ : boundArgs sig c₁ = some b₁) (hb₂ : boundArgs sig c₂ = some b₂)
@@ -134,9 +220,7 @@ theorem key_separates_calls (sig : Sig) (t : Tmpl) (hs : separated t = true) (ct
       ':' ∉ typeFmt v₁ ∧ ':' ∉ typeFmt v₂)
     (p : Str) (hp : p ∈ t.fields) (v₁ v₂ : PyVal)
     (hv₁ : get? (valuesOf b₁) p = some v₁) (hv₂ : get? (valuesOf b₂) p = some v₂)
-    (hty : v₁.type = v₂.type)
-    (hsc : v₁.type = .str ∨ v₁.type = .int ∨ v₁.type = .bool ∨ v₁.type = .none)
-    (hne : v₁ ≠ v₂) :
+    (hd : Distinguishable v₁ v₂) :
     cacheKey sig t ctx c₁ ≠ cacheKey sig t ctx c₂ := by
   rw [key_is_function_of_bound sig t ctx c₁ b₁ hb₁, key_is_function_of_bound sig t ctx c₂ b₂ hb₂]
   -- lookups of template fields hit the call's own values (they win over the context)
@@ -166,7 +250,7 @@ theorem key_separates_calls (sig : Sig) (t : Tmpl) (hs : separated t = true) (ct
     obtain ⟨_, w₂, _, hw₂, _, hc⟩ := hdom n hn
     rw [f₂, txt b₂ n w₂ hw₂]; exact hc
   · rw [f₁, f₂, txt b₁ p v₁ hv₁, txt b₂ p v₂ hv₂]
-    exact fun e => hne (text_injective_one_type v₁ v₂ hty hsc e)
+    exact text_differs_of_distinguishable v₁ v₂ hd
 
 /-- non-vacuity of `key_separates_calls`: `f(1)` and `f(a=2)` of `def f(a, b=5, *, c=None)` satisfy
 every premise (generated template, all texts ':'-free, `a` differs within type int) -/
@@ -174,7 +258,7 @@ example : cacheKey sigD15 tmplD15 {} ⟨[.int 1], []⟩ ≠ cacheKey sigD15 tmpl
   refine key_separates_calls sigD15 tmplD15 (auto_template_separated _ _ _ _ _) {} rfl _ _
     [(['a'], .one (.int 1)), (['b'], .one (.int 5)), (['c'], .one .none)]
     [(['a'], .one (.int 2)), (['b'], .one (.int 5)), (['c'], .one .none)] rfl rfl ?_
-    ['a'] (by decide) (.int 1) (.int 2) rfl rfl rfl (Or.inr (Or.inl rfl)) (by intro h; cases h)
+    ['a'] (by decide) (.int 1) (.int 2) rfl rfl ⟨(by intro h; cases h), rfl, Or.inr (Or.inl rfl)⟩
   intro n hn
   have : n = ['a'] ∨ n = ['b'] ∨ n = ['c'] := by
     have hf : tmplD15.fields = [['a'], ['b'], ['c']] := by decide
